@@ -102,8 +102,10 @@ CLAIMED["C01"] = dict(
          "box then the point returned by restore_sol satisfies the user's bounds exactly, l - tol*2^-w <= c(x) <= u + "
          "tol*2^-w row by row, |grad f + J^T y + d|_j <= tol*2^(v_j - o), y_i zero to tol*2^(w_i - o) away from the slack "
          "bounds and of the right sign at them, d_j zero away from bounds and of the documented sign at them; and the loop "
-         "returns Optimal only with total_res <= opt_tol, for every oracle trace. Partial: float rounding of the residual; "
-         "the flow-integration solver is not covered by the theorems (known finding F9 is about it).",
+         "returns Optimal only with total_res <= opt_tol, for every oracle trace; C01_end_to_end composes both with the box "
+         "invariant into one statement about what solve() hands back. Partial: float rounding of the residual; the "
+         "flow-integration solver is not covered by the theorems (its Optimal results are checked by the KKT oracle in a "
+         "small campaign; the round-0 observation F9 about it was not reproduced).",
     note=BASE_NOTE + "Exact arithmetic over Q; ldexp modelled as multiplication by 2^k; NaN-free comparisons.",
     technique="Coq proof: scalar KKT lemmas lifted through the slack embedding and the power-of-two scaling (lra/nra over Q) "
               "+ loop induction; vm_compute differential correspondence (transform, iterate, loop units)",
